@@ -4,7 +4,8 @@
 //! memory and once through a written and re-read file in the target transfer syntax.
 #[path = "c18/img.rs"]
 mod img;
-use dicom_core::value::Value;
+use dicom_core::value::{PixelFragmentSequence, Value};
+use dicom_core::{DataElement, VR};
 use dicom_dictionary_std::tags;
 use dicom_encoding::{Codec, TransferSyntaxIndex};
 use dicom_object::{FileDicomObject, InMemDicomObject};
@@ -94,6 +95,25 @@ fn hop1(o: &Obj) -> String {
     }
 }
 
+
+/// one frame as a fragment of the target syntax, made without the adapters of the registry:
+/// as it is for encapsulated uncompressed, as a single *stored* deflate block otherwise;
+/// padded to even length
+fn independent_fragment(uid: &str, frame: &[u8]) -> Vec<u8> {
+    let mut f = if uid == "1.2.840.10008.1.2.1.98" {
+        frame.to_vec()
+    } else {
+        let n = frame.len() as u16;
+        let mut v = vec![0x01, n as u8, (n >> 8) as u8, !n as u8, (!n >> 8) as u8];
+        v.extend_from_slice(frame);
+        v
+    };
+    if f.len() % 2 == 1 {
+        f.push(0);
+    }
+    f
+}
+
 fn main() {
     let a = parse_args();
     quiet_panics();
@@ -148,6 +168,52 @@ fn main() {
             planar: if spp == 3 && r.chance(1, 3) { 1 } else { 0 },
             mono1: r.chance(1, 4),
         };
+        // one direction only: an encapsulated object made by hand, decoded to Explicit VR LE
+        if r.chance(1, 5) && (uid == "1.2.840.10008.1.2.1.98" || uid == "1.2.840.10008.1.2.8.1") {
+            let fsz = im.frame_size();
+            let frags: Vec<Vec<u8>> = (0..frames as usize)
+                .map(|f| independent_fragment(uid, &im.data[f * fsz..(f + 1) * fsz]))
+                .collect();
+            let mut off = 0u32;
+            let table: Vec<u32> = frags
+                .iter()
+                .map(|f| {
+                    let o = off;
+                    off += f.len() as u32 + 8;
+                    o
+                })
+                .collect();
+            let with_table = r.chance(2, 3);
+            let head = format!(
+                "dec {} {} {} {} {} {} {} {} {}",
+                uid,
+                rows,
+                cols,
+                spp,
+                bits,
+                frames,
+                frames_attr as u8,
+                with_table as u8,
+                hex(&im.data)
+            );
+            let im1 = im.clone();
+            let res = catch(move || {
+                let mut o = im1.object(uid);
+                let seq = if with_table {
+                    PixelFragmentSequence::new(table, frags)
+                } else {
+                    PixelFragmentSequence::new_fragments(frags)
+                };
+                o.put(DataElement::new(tags::PIXEL_DATA, VR::OB, Value::PixelSequence(seq)));
+                if o.transcode(&entries::EXPLICIT_VR_LITTLE_ENDIAN.erased()).is_err() {
+                    return "err".to_string();
+                }
+                describe(&o)
+            })
+            .unwrap_or_else(|_| "panic".into());
+            out.line(&format!("#{} {} => {}", i, head, res));
+            continue;
+        }
         let src = *r.pick(&["1.2.840.10008.1.2", "1.2.840.10008.1.2.1", "1.2.840.10008.1.2.2"]);
         let head = format!(
             "rt {} {} {} {} {} {} {} {} {} {} {} {}",
